@@ -22,7 +22,7 @@ ASSUMPTIONS = [
     "the returned step is matched to a logged evaluation point within 8 ulp of x0 + alpha*d",
     "max feasible step recomputed independently; alpha may exceed it by at most 4 eps relative",
 ]
-FAMS = ("qp", "oscillating", "sinus", "exp_wall", "qp_quartic", "quantized")
+FAMS = ("qp", "oscillating", "sinus", "exp_wall", "qp_quartic", "quantized", "offset", "offset")
 
 
 def floors(tier):
@@ -40,6 +40,20 @@ def make_objective(rng, fam, n):
 
         def g(x):
             return amp * om * np.cos(om * x + ph)
+
+        return f, g
+    if fam == "offset":
+        # a tiny smooth variation on top of a huge constant: along short steps the decrease is lost to rounding
+        A = gen.rand_spd(rng, n, float(np.exp(rng.uniform(0, 3))))
+        b = rng.standard_normal(n)
+        C = float(10.0 ** rng.integers(6, 12))
+        w = float(10.0 ** rng.uniform(-12, -6))
+
+        def f(x):
+            return float(C + w * (0.5 * x @ A @ x - b @ x))
+
+        def g(x):
+            return w * (A @ x - b)
 
         return f, g
     if fam == "quantized":
@@ -127,7 +141,9 @@ def one_call(rng):
     if fam == "exp_wall":
         x0 = np.clip(x0 - 2.0, lb, ub)
     g0 = g(x0)
-    t = float(np.exp(rng.uniform(-4, 3))) if fam != "quantized" else float(np.exp(rng.uniform(-12, 0)))
+    t = float(np.exp(rng.uniform(-4, 3))) if fam not in ("quantized", "offset") else float(np.exp(rng.uniform(-12, 0)))
+    if fam == "offset":
+        t = t / max(float(np.linalg.norm(g0)), 1e-300) * float(np.exp(rng.uniform(-6, 2)))
     d = np.clip(x0 - t * g0, lb, ub) - x0
     return fam, n, f, g, lb, ub, x0, d
 
